@@ -8,6 +8,7 @@
 From PyUbx Require Import Base Bytes PyFloat Types Strs Walk Consts Tables Msg.
 From PyUbx Require Import Codec_lemmas Bits_lemmas Field_lemmas WfDef.
 From PyUbx Require Import Trace_lemmas Shape_lemmas Build_lemmas Roundtrip_lemmas Rt_auto Msg_rt.
+From PyUbx Require Import Scaled_bound.
 From Coq Require Import Floats.SpecFloat.
 Open Scope Z_scope.
 
@@ -116,3 +117,37 @@ Theorem C03_smallscale_refuted :
   py_round_nd 12 (fmul (f_of_Z 1) (b64_of_bits 4413928609240219648)) = Ok (S754_zero false).
 Proof. exact smallscale_refuted. Qed.
 Print Assumptions C03_smallscale_refuted.
+
+(* SCALED FIELDS, the part the recorded findings leave standing: "to within one unit of resolution".
+   parse computes v = round(raw * s, 12) and build computes int(v / s).  For EVERY raw value of up to 32 bits (all
+   U1..U4 / I1..I4 fields) and EVERY scale s >= 1e-12 the rebuilt integer differs from raw by at most 1 - proved by
+   real-number error analysis over Flocq (each SpecFloat operation of the model is Flocq's correctly rounded one).
+   Axioms: the four of the standard library's real numbers (see Print Assumptions), named in DESIGN.md. *)
+Theorem C03_scaled_within_one : forall raw b v q z,
+  (Z.abs raw <= 2 ^ 32)%Z -> scale_ge_1e12 b ->
+  (do m <- py_mul_scale (PInt raw) (SFloat b); py_round12 12 m) = Ok v ->
+  py_div_scale v (SFloat b) = Ok q -> py_int_of_float q = Ok z ->
+  (Z.abs (z - raw) <= 1)%Z.
+Proof. exact scaled_field_within_one. Qed.
+Print Assumptions C03_scaled_within_one.
+
+(* table obligation (regenerated tables): every float scale factor of every shipped definition either meets that
+   premise or is one of the sub-1e-12 scales of the recorded finding KF-C03-small-scale *)
+Theorem C03_table_scales : forallb (fun b => scale_okb b || small_scale b) table_fscales = true.
+Proof. exact table_scales_ok. Qed.
+Print Assumptions C03_table_scales.
+
+Theorem C03_table_scaled_within_one : forall raw b v q z,
+  In b table_fscales -> small_scale b = false -> (Z.abs raw <= 2 ^ 32)%Z ->
+  (do m <- py_mul_scale (PInt raw) (SFloat b); py_round12 12 m) = Ok v ->
+  py_div_scale v (SFloat b) = Ok q -> py_int_of_float q = Ok z ->
+  (Z.abs (z - raw) <= 1)%Z.
+Proof. exact table_scaled_within_one. Qed.
+Print Assumptions C03_table_scaled_within_one.
+
+(* non-vacuity: scalround is 12 in the tables, more than 100 table scales meet the premise, and NAV-PVT headMot's
+   1e-5 on the finding's witness gives exactly raw - 1 *)
+Example C03_scalround_is_12 : scalround = 12.
+Proof. reflexivity. Qed.
+Example C03_scales_many : Nat.leb 100 (length (filter scale_okb table_fscales)) = true.
+Proof. exact table_scales_some_ok. Qed.
